@@ -28,6 +28,15 @@ func ParseQuotedString(arg string) string {
 	return arg
 }
 
+// QuoteString returns s as an IMAP quoted string (RFC 3501 section 4.3):
+// backslash and double quote are escaped, so that a mailbox name containing
+// them still reads back as one string.
+func QuoteString(s string) string {
+	s = strings.ReplaceAll(s, "\\", "\\\\")
+	s = strings.ReplaceAll(s, "\"", "\\\"")
+	return "\"" + s + "\""
+}
+
 // ParseSequenceSetWithDB parses a sequence set and returns message sequence numbers
 func ParseSequenceSetWithDB(sequenceSet string, mailboxID int64, userDB *sql.DB) []int {
 	var sequences []int
